@@ -18,7 +18,6 @@ import os
 import sys
 import time
 import traceback
-from concurrent.futures import ProcessPoolExecutor, as_completed
 
 DET_TIME = float(os.environ.get("VERIF_DET_TIME", "0.15"))
 
@@ -124,31 +123,113 @@ def compile_one(task):
     return res
 
 
-class Compiler:
-    """Pool of worker processes running the real compiler."""
+def _worker_main(idx, seed, inq, outq):
+    _worker_init(seed)
+    import importlib
 
-    def __init__(self, workers=None, seed=0):
-        self.workers = workers or min(16, os.cpu_count() or 4)
+    while True:
+        item = inq.get()
+        if item is None:
+            break
+        tid, fn_path, task = item
+        try:
+            mod, name = fn_path.rsplit(".", 1)
+            fn = getattr(importlib.import_module(mod), name)
+            res = fn(task)
+        except BaseException as exc:  # noqa: BLE001
+            res = {"key": task.get("key"), "ok": False, "error": f"worker exception: {type(exc).__name__}: {exc}", "exc_type": "WorkerFailure"}
+        outq.put((idx, tid, res))
+
+
+class Compiler:
+    """Pool of worker processes running the real compiler (and the solver queries of vf.work).
+
+    Own implementation instead of concurrent.futures: workers are spawned (fresh interpreter, so no
+    process-global compiler state leaks between batches), recycled after `recycle` tasks, killed and
+    replaced when a task exceeds `task_timeout` seconds or the process dies; such a task is reported
+    as a worker failure (never as a pass)."""
+
+    def __init__(self, workers=None, seed=0, task_timeout=900, recycle=40):
+        import multiprocessing as mp
+
+        self.ctx = mp.get_context("spawn")
+        self.n = workers or min(16, os.cpu_count() or 4)
         self.seed = seed
-        self.pool = ProcessPoolExecutor(
-            max_workers=self.workers, initializer=_worker_init, initargs=(seed,), max_tasks_per_child=40
-        )
+        self.task_timeout = task_timeout
+        self.recycle = recycle
+        self.outq = self.ctx.Queue()
+        self.procs = {}
         self.count = 0
         self.secs = 0.0
 
+    def _spawn(self, idx):
+        inq = self.ctx.Queue()
+        p = self.ctx.Process(target=_worker_main, args=(idx, self.seed, inq, self.outq), daemon=True)
+        p.start()
+        self.procs[idx] = {"p": p, "inq": inq, "task": None, "t0": None, "done": 0}
+
+    def _kill(self, idx):
+        w = self.procs.get(idx)
+        if not w:
+            return
+        try:
+            w["p"].kill()
+            w["p"].join(timeout=5)
+        except Exception:  # noqa: BLE001
+            pass
+
     def map(self, tasks, fn=None):
-        """yield results as they complete (each carries task['key'])"""
-        fn = fn or compile_one
-        futs = {self.pool.submit(fn, t): t for t in tasks}
-        for f in as_completed(futs):
-            t = futs[f]
+        """yield (task, result) as results complete"""
+        import queue as _q
+
+        fn_path = "vf.driver.compile_one" if fn is None else f"{fn.__module__}.{fn.__name__}"
+        pending = list(enumerate(tasks))
+        pending.reverse()
+        inflight = {}
+        n = min(self.n, max(1, len(tasks)))
+        for i in range(n):
+            if i not in self.procs or not self.procs[i]["p"].is_alive():
+                self._spawn(i)
+        idle = [i for i in range(n)]
+        remaining = len(tasks)
+        while remaining:
+            while idle and pending:
+                i = idle.pop()
+                w = self.procs[i]
+                if not w["p"].is_alive() or w["done"] >= self.recycle:
+                    if w["p"].is_alive():
+                        w["inq"].put(None)
+                    self._spawn(i)
+                    w = self.procs[i]
+                tid, task = pending.pop()
+                w["task"], w["t0"] = (tid, task), time.time()
+                inflight[i] = (tid, task)
+                w["inq"].put((tid, fn_path, task))
             try:
-                r = f.result()
-            except Exception as exc:  # worker died
-                r = {"key": t.get("key"), "ok": False, "error": f"worker failure: {exc!r}", "exc_type": "WorkerFailure"}
+                i, tid, res = self.outq.get(timeout=2.0)
+            except _q.Empty:
+                now = time.time()
+                for i, (tid, task) in list(inflight.items()):
+                    w = self.procs[i]
+                    dead = not w["p"].is_alive()
+                    if dead or now - w["t0"] > self.task_timeout:
+                        self._kill(i)
+                        self._spawn(i)
+                        del inflight[i]
+                        idle.append(i)
+                        remaining -= 1
+                        why = "worker process died" if dead else f"task exceeded {self.task_timeout}s"
+                        yield task, {"key": task.get("key"), "ok": False, "error": f"worker failure: {why}", "exc_type": "WorkerFailure"}
+                continue
+            if inflight.get(i, (None,))[0] != tid:
+                continue  # stale result of a killed worker
+            task = inflight.pop(i)[1]
+            self.procs[i]["done"] += 1
+            idle.append(i)
+            remaining -= 1
             self.count += 1
-            self.secs += r.get("secs", 0)
-            yield t, r
+            self.secs += res.get("secs", 0) if isinstance(res, dict) else 0
+            yield task, res
 
     def run(self, tasks):
         out = {}
@@ -157,7 +238,18 @@ class Compiler:
         return out
 
     def close(self):
-        self.pool.shutdown(wait=True, cancel_futures=True)
+        for i, w in list(self.procs.items()):
+            try:
+                if w["p"].is_alive():
+                    w["inq"].put(None)
+            except Exception:  # noqa: BLE001
+                pass
+        t_end = time.time() + 3
+        for i, w in list(self.procs.items()):
+            w["p"].join(timeout=max(0.1, t_end - time.time()))
+            if w["p"].is_alive():
+                self._kill(i)
+        self.procs = {}
 
 
 def src_hash(src, opts=""):
